@@ -114,6 +114,8 @@ def run(check, ctx):
     # the evaluator's bounds checks where a native length guard protects index arithmetic
     from . import c_modes, c_ec
     c_modes.mode_tables(check, ctx, ("guard-cfb", "guard-cbc", "guard-ofb", "guard-ctr"), rule="G-c")
+    from . import c_ocb
+    c_ocb.ocb_tables(check, ctx, rule="G-c", groups=("guards",))
     c_ec.memory_tables(check, ctx)
     check.undecided.append("a whole-program bounds proof: index arithmetic inside the bignum, Montgomery and EC "
                            "code, scratch-space sizing, intrinsics; lengths >= 2^32 on loops with unsigned counters")
